@@ -42,7 +42,7 @@ func TestLongWaitVerdict(t *testing.T) {
 	}()
 	// up to the end of the routing period a waiting source end must be routable from every node
 	for _, lw := range longWaits {
-		if age := time.Since(lw.t0); age < routingPeriod-2*time.Second && lw.waiting() {
+		if age := time.Since(lw.t0); !(stopwatch{lw.t0}).suspect(routingPeriod-2*time.Second) && lw.waiting() {
 			if n := lw.resolves(); n != len(lw.tables) {
 				vkit.Violation(t, "C09/server/waiting-tunnel-not-routable/"+lw.backend+"/during-period",
 					fmt.Sprintf("%v into the period the source end of %s waits on node-1 but only %d of %d nodes resolve it", age.Round(time.Millisecond), lw.tid, n, len(lw.tables)),
@@ -85,6 +85,12 @@ func TestLongWaitVerdict(t *testing.T) {
 			}
 		}
 		age := time.Since(lw.t0).Round(100 * time.Millisecond)
+		if (stopwatch{lw.t0}).suspect(time.Hour) && verdict != "released" {
+			// the wall clock and the monotonic clock disagree (suspended VM, clock step): the record's wall-clock expiry and
+			// the bridge's monotonic timer no longer describe the same 30 s
+			vkit.Skipped(1)
+			continue
+		}
 		switch verdict {
 		case "waiting-but-unroutable":
 			vkit.Violation(t, "C09/server/waiting-bridge-outlives-routing-record/"+lw.backend,
